@@ -226,7 +226,16 @@ def ps_forward_calls(lr, seg_call, path_params):
     return sorted(out)
 
 
-RULES = [("C03.R1", r1_decode_once), ("C03.R2", r2_dot_segments), ("C03.R3", r3_400_before_lookup)]
+def r4_segments_reach_variables_whole(ctx):
+    """`an encoded slash never creates or crosses a segment boundary` holds up to the handler only if the walk binds variables to the
+    validated segments as they are.  This is C01.R3, re-evaluated here (adversary change C03-G re-split decoded wildcard segments
+    on '/', so `..%2F..%2Fetc` was delivered as `[.., .., etc]`)."""
+    from . import c01
+    from .lib_c01 import Renamed
+    c01.r3_walk_integrity(Renamed(ctx, "C03.R4", "the validated segments reach the path variables whole: one segment per single variable, the remaining segments in order per wildcard, nothing split, merged or trimmed on the way"))
+
+
+RULES = [("C03.R4", r4_segments_reach_variables_whole), ("C03.R1", r1_decode_once), ("C03.R2", r2_dot_segments), ("C03.R3", r3_400_before_lookup)]
 
 _RT = "dropshot/src/router.rs"
 _FILTER_MAP = "        .filter(|segment| !segment.is_empty())\n        .map(|segment| {\n"
@@ -283,3 +292,4 @@ SELFTEST = [
                                                              "        })?;\n        drop(all_segments);\n        let mut all_segments = path.0.split('/').filter(|s| !s.is_empty()).map(String::from).collect::<Vec<String>>().into_iter();\n")],
      "expect": ["C03.R3"], "why": "the path is validated but the walk uses a second, undecoded and unchecked parse of the raw path"},
 ]
+LEVEL_TEXT += ' Also (R4 = C01.R3): the validated segments are bound to the path variables unmodified.'
